@@ -470,6 +470,13 @@ def abstract_recfuns(ctx, hyps, goal):
 def check_valid(ctx, hyps, goal, timeout_ms=None, use_cli=True, full=True, abstract_axioms=False):
     """returns (verdict, backend, seconds, model_or_reason)"""
     t0 = time.time()
+    # watchdog over the whole query (building the solver included: z3 simplifies assertions when they are added, and its own
+    # timeout is not honoured inside some theory solvers): after 1.5 x the budget + 3 s the context is interrupted
+    import threading
+    budget = (timeout_ms or Z3_TIMEOUT_MS) / 1000.0
+    timer = threading.Timer(budget * (2.5 if full else 1.5) + 3.0, lambda: z3.main_ctx().interrupt())
+    timer.daemon = True
+    timer.start()
     try:
         if abstract_axioms:
             saved = ctx.axioms
@@ -482,8 +489,23 @@ def check_valid(ctx, hyps, goal, timeout_ms=None, use_cli=True, full=True, abstr
                 ctx.axioms = saved
         return _check_valid(ctx, hyps, goal, timeout_ms, use_cli, full)
     except z3.Z3Exception as e:
-        # an internal solver error decides nothing
+        # an internal solver error (or the watchdog's interrupt) decides nothing
         return 'unknown', 'z3-5.1(api)', time.time() - t0, f'solver error: {e}'
+    finally:
+        timer.cancel()
+
+
+def guarded_check(s, timeout_ms):
+    """s.check() with a watchdog: z3's own timeout is not honoured inside some theory solvers (sequences / strings); after
+    1.5 x the budget + 2 s the context is interrupted from a timer thread and the answer is `unknown`"""
+    import threading
+    timer = threading.Timer(timeout_ms / 1000.0 * 1.5 + 2.0, lambda: z3.main_ctx().interrupt())
+    timer.daemon = True
+    timer.start()
+    try:
+        return s.check()
+    finally:
+        timer.cancel()
 
 
 def _check_valid(ctx, hyps, goal, timeout_ms=None, use_cli=True, full=True):
@@ -492,13 +514,13 @@ def _check_valid(ctx, hyps, goal, timeout_ms=None, use_cli=True, full=True):
     # phase 1: e-matching only (fast when provable, gives up quickly otherwise)
     s = _solver(ctx, hyps, goal, min(timeout_ms, 4000))
     s.set('smt.mbqi', False)
-    r = s.check()
+    r = guarded_check(s, min(timeout_ms, 4000))
     if r == z3.unsat:
         return 'proved', 'z3-5.1(api)', time.time() - t0, None
     if not full:
         return 'unknown', 'z3-5.1(api)', time.time() - t0, 'e-matching only'
     s = _solver(ctx, hyps, goal, timeout_ms)
-    r = s.check()
+    r = guarded_check(s, timeout_ms)
     dt = time.time() - t0
     if r == z3.unsat:
         return 'proved', 'z3-5.1(api)', dt, None
@@ -705,9 +727,13 @@ def fold_equalities(ctx, hyps, goal, timeout_ms):
 def discharge(ctx, ob, timeout_ms=None, outside=None, known_ids=()):
     """the tactic pipeline, repeated with other solver seeds when it neither proves nor refutes: whether e-matching meets the
     needed instances before the budget ends depends on the instantiation order, which the seed permutes"""
+    cap = float(os.environ.get('PYVC_OB_CAP_S', '100'))
+    ctx.ob_deadline = time.time() + cap           # total wall-clock allowance of one obligation over all tactics and seeds
     res = _discharge(ctx, ob, timeout_ms, outside, known_ids)
-    if res['verdict'] == 'unknown' and not getattr(ob, 'trivial', False):
+    if res['verdict'] == 'unknown' and not getattr(ob, 'trivial', False) and os.environ.get('PYVC_NO_PORTFOLIO') != '1':
         for seed in (1, 2):
+            if time.time() > ctx.ob_deadline - cap / 3:
+                break
             ctx.z3_seed = seed
             try:
                 r2 = _discharge(ctx, ob, timeout_ms, outside, known_ids)
@@ -770,6 +796,8 @@ def _discharge(ctx, ob, timeout_ms=None, outside=None, known_ids=()):
         # (instantiation order decides whether e-matching finds the short proof before the sequence solver is drawn in)
         def one(goal):
             for seed in (0, 1, 2, 3, 4):
+                if seed and time.time() > getattr(ctx, 'ob_deadline', float('inf')):
+                    return False
                 ctx.z3_seed = seed
                 try:
                     if check_valid(ctx, ob.hyps, goal, timeout_ms, use_cli=False, full=False)[0] == 'proved':
@@ -779,26 +807,30 @@ def _discharge(ctx, ob, timeout_ms=None, outside=None, known_ids=()):
             return False
         if all(one(ob.goal.arg(k)) for k in range(ob.goal.num_args())):
             v, be = 'proved', f'z3-5.1(api) goal split into {ob.goal.num_args()} conjuncts (seed portfolio)'
-    if v != 'proved' and inductive:
+    late = lambda: time.time() > getattr(ctx, 'ob_deadline', float('inf'))
+    if v != 'proved' and inductive and not late():
         ind = induction(ctx, ob.hyps, ob.goal, timeout_ms)
         if ind is not None and ind[0] == 'proved':
             v, be = 'proved', ind[1]
         elif ind is not None:
             res['induction'] = ind[1]
-    if v != 'proved' and inductive:
+    if v != 'proved' and inductive and not late():
         cs = case_split(ctx, ob.hyps, ob.goal, timeout_ms)
         if cs is not None and cs[0] == 'proved':
             v, be = 'proved', cs[1]
         elif cs is not None:
             res['case_split'] = cs[1]
-    if v != 'proved' and inductive:
+    if v != 'proved' and inductive and not late():
         eqs = fold_equalities(ctx, ob.hyps, ob.goal, timeout_ms)
         if eqs:
             v2, be2, _, _ = check_valid(ctx, list(ob.hyps) + eqs, ob.goal, timeout_ms, use_cli=False, full=False)
             if v2 == 'proved':
                 v, be = 'proved', be2 + f' with {len(eqs)} fold-equality lemma(s) proved by induction'
     if v != 'proved':
-        v, be, dt, extra = check_valid(ctx, ob.hyps, ob.goal, timeout_ms, use_cli=USE_CLI and inductive)
+        # the other seeds of the portfolio permute the instantiation order of the e-matching tactics above; model finding
+        # and the CLI back ends were already tried with seed 0
+        light = getattr(ctx, 'z3_seed', 0) != 0
+        v, be, dt, extra = check_valid(ctx, ob.hyps, ob.goal, timeout_ms, use_cli=USE_CLI and inductive and not light, full=not light)
     res.update(verdict=v, backend=be, seconds=round(time.time() - t0, 3))
     if v == 'refuted':
         res['model'] = model_summary(extra)
